@@ -25,15 +25,15 @@ Print Assumptions C01_para_core.
    whether each edit was applied, skipped or matched by the fuzzy stages (the oracle answers are arbitrary) *)
 Theorem C01_engine_reversible : forall d author ts edits orc,
   let nd := normalize_doc d in
-  let '(d', ap, sk, out) := apply_edits d author ts edits orc in
-  (wf_ids nd -> RelG (scan_ids nd) (next_comment_id nd) (d_next_uid nd) nd d') /\ (out = 0 -> ap + sk = length edits).
+  let '(d', ap, sk, out, nn) := apply_edits d author ts edits orc in
+  (wf_ids nd -> nn = 0 -> RelG (scan_ids nd) (next_comment_id nd) (d_next_uid nd) nd d') /\ (out = 0 -> ap + sk = length edits).
 Proof. exact engine_contract. Qed.
 Print Assumptions C01_engine_reversible.
 (* and when the result holds no paragraph of the session, the plain relation: the same paragraphs, one for one *)
 Theorem C01_no_new_paragraph_exact : forall d author ts edits orc,
   let nd := normalize_doc d in
-  let '(d', _, _, _) := apply_edits d author ts edits orc in
-  wf_ids nd -> Forall (fun p => p_id p < d_next_uid nd) (doc_paras d') -> Rel (scan_ids nd) (next_comment_id nd) nd d'.
+  let '(d', _, _, _, nn) := apply_edits d author ts edits orc in
+  wf_ids nd -> nn = 0 -> Forall (fun p => p_id p < d_next_uid nd) (doc_paras d') -> Rel (scan_ids nd) (next_comment_id nd) nd d'.
 Proof. exact engine_plain. Qed.
 Print Assumptions C01_no_new_paragraph_exact.
 
